@@ -108,6 +108,10 @@ class ParallelModel(ConfigurableModel):
                 except Exception as exc:
                     results[step_name] = f"Error: {exc}"
 
+        # Report the results in the declared order of the steps, not in the order in which the
+        # threads happened to finish
+        results = {name: results[name] for name, _ in self.step_configs if name in results}
+
         # Apply aggregator if provided
         if self.aggregator:
             # Convert dictionary of results to a list of values for the aggregator
